@@ -190,6 +190,18 @@ func (e *Engine) loadAt(v Value, path []PathElem) Value {
 	if p, ok := isPoison(v); ok {
 		return p
 	}
+	if sp, ok := v.(*SparseArr); ok {
+		idx := e.pathTerm(path[0])
+		res := e.loadAt(sp.Default, path[1:])
+		for _, s0 := range sp.Stores {
+			m, ok := e.mergeValues(e.tt.Eq(idx, s0.Idx), e.loadAt(s0.Val, path[1:]), res)
+			if !ok {
+				return Poison{"sparse array over non-mergeable elements"}
+			}
+			res = m
+		}
+		return res
+	}
 	a, ok := v.(*Agg)
 	if !ok {
 		return Poison{"load through non-aggregate " + describe(v)}
@@ -247,6 +259,13 @@ func (e *Engine) storeAt(v Value, path []PathElem, nv Value, guard *Term, epoch 
 	}
 	if _, ok := isPoison(v); ok {
 		return v
+	}
+	if sp, ok := v.(*SparseArr); ok {
+		idx := e.pathTerm(path[0])
+		old := e.loadAt(sp, path[:1])
+		nvv := e.storeAt(old, path[1:], nv, guard, epoch)
+		n := &SparseArr{Default: sp.Default, Stores: append(sp.Stores[:len(sp.Stores):len(sp.Stores)], SparseStore{Idx: idx, Val: nvv})}
+		return n
 	}
 	a, ok := v.(*Agg)
 	if !ok {
@@ -520,6 +539,39 @@ func (e *Engine) mergeValues(c *Term, a, b Value) (Value, bool) {
 		return a, ok && x.Kind == y.Kind && ptrEq(x.V, y.V)
 	case Poison:
 		return x, true
+	case *SparseArr:
+		y, ok := b.(*SparseArr)
+		if !ok {
+			return nil, false
+		}
+		if x == y {
+			return x, true
+		}
+		// same history prefix: merge the differing tails as guarded stores
+		k := 0
+		for k < len(x.Stores) && k < len(y.Stores) && x.Stores[k].Idx == y.Stores[k].Idx && ptrEq(x.Stores[k].Val, y.Stores[k].Val) {
+			k++
+		}
+		n := &SparseArr{Default: x.Default, Stores: append([]SparseStore(nil), x.Stores[:k]...)}
+		cur := Value(&SparseArr{Default: x.Default, Stores: n.Stores})
+		_ = cur
+		for _, s0 := range y.Stores[k:] {
+			old := e.loadAt(&SparseArr{Default: n.Default, Stores: n.Stores}, []PathElem{{Sym: s0.Idx}})
+			m, ok := e.mergeValues(c, old, s0.Val)
+			if !ok {
+				return nil, false
+			}
+			n.Stores = append(n.Stores, SparseStore{Idx: s0.Idx, Val: m})
+		}
+		for _, s0 := range x.Stores[k:] {
+			old := e.loadAt(&SparseArr{Default: n.Default, Stores: n.Stores}, []PathElem{{Sym: s0.Idx}})
+			m, ok := e.mergeValues(c, s0.Val, old)
+			if !ok {
+				return nil, false
+			}
+			n.Stores = append(n.Stores, SparseStore{Idx: s0.Idx, Val: m})
+		}
+		return n, true
 	case *MapObj:
 		y, ok := b.(*MapObj)
 		if !ok || len(x.Entries) != len(y.Entries) {
@@ -839,6 +891,9 @@ func ptrEq(a, b Value) bool {
 		return ok && x == y
 	case *MapObj:
 		y, ok := b.(*MapObj)
+		return ok && x == y
+	case *SparseArr:
+		y, ok := b.(*SparseArr)
 		return ok && x == y
 	case nil:
 		return b == nil
